@@ -59,6 +59,7 @@ def run(R):
                      "so a later independent registration silently turns the choice into a Bernoulli variable and the result - still reported as "
                      "Exact - is wrong whenever a model has that choice false")
     r7(R)
+    r8(R)
     R.rule("C08-R6", "search states are not pruned by a partial key: in enumerate_proofs a state taken from the frontier may be dropped through "
                      "a seen-set only if the key covers both what the state has proved so far and what it still has to prove (proof and "
                      "pending) - two states at the same lineage node with the same partial proof can still differ in their remaining conjuncts")
@@ -544,3 +545,41 @@ def r7(R):
         R.ob("C08-R7", "independent-only", "ensure_variable is called only for a seed whose kind was matched as Independent", ok, where=x.where(c.ln),
              detail=None if ok else "every referenced seed is (re)registered as independent, also the choices of an exclusive group: their negative weight "
              "becomes 1-p while their unreferenced siblings keep 1")
+
+
+def r8(R):
+    """the mutual-exclusion constraint of a group ranges over all its choices"""
+    prog = R.prog
+    R.rule("C08-R8", "exactly one of the *whole* group: the variables handed to the exactly-one constraint the lineage compiler conjoins for an "
+                     "exclusive group are taken from the seed table's member list of that group (`seeds.group(g)`), not collected from the seeds "
+                     "the lineage happens to mention. All choices are registered as variables with weights (p, 1); a constraint over the "
+                     "mentioned ones only loses every world in which an unmentioned choice is selected, and the result is still reported as exact")
+    b = R.body("C08-R8", "hybrid::compile_lineage_to_sdd_with_clock", crate="shared")
+    if b is None:
+        return
+    R.saw(b)
+    fam = prog.family(b.key)
+    sinks = [(x, c) for x in fam for c in x.calls() if c.name() in ("try_exactly_one", "exactly_one") and len(c.args) >= 2]
+    if not R.ob("C08-R8", "constrains", "the lineage compiler conjoins an exactly-one constraint (found %d site)" % len(sinks), len(sinks) >= 1, where=b.where()):
+        return
+    T = Taint(prog, b)
+    nsrc = 0
+    for x in fam:
+        for c in x.calls():
+            if c.name() == "group" and c.key and "Seed" in (c.pretty or c.key):
+                T.seed(x, c.dest["l"], "members")
+                nsrc += 1
+            # ids of the referenced set: what collect_seed_ids filled
+            if c.name() == "collect_seed_ids" and len(c.args) >= 3:
+                pl = F.op_place(c.args[2])
+                if pl is not None:
+                    root = x.alias_root(c.args[2])
+                    T.seed(x, root if isinstance(root, int) else pl["l"], "referenced")
+    T.run()
+    R.ob("C08-R8", "member-list", "the seed table's member list of a group is read (found %d call of group())" % nsrc, nsrc >= 1, where=b.where())
+    for x, c in sinks:
+        labs = T.op_taint(x, c.args[1])
+        ok = "members" in labs
+        R.ob("C08-R8", "whole-group", "the variables of the exactly-one constraint derive from the group's member list (derive from: %s)" % sorted(labs), ok,
+             where=x.where(c.ln), detail=None if ok else "`a | x` with `a` the 0.2 choice of a {0.2, 0.3, 0.5} group and `x` independent at 0.5 is reported "
+             "as exactly 0.2 (truth 0.6): the worlds that select the two unmentioned choices satisfy no `exactly one of {a}`")
